@@ -215,7 +215,7 @@ package lastgersync
 //@   ensures result1 != nil ==> result0 == nil && gerLookupsOK == old(gerLookupsOK)
 //@   ensures result1 == nil ==> result0 != nil && result0.L1InfoTreeIndex == l1IndexOfGER(ger) && gerLookupsOK == old(gerLookupsOK) + 1
 
-//@ func (d *downloaderPP) buildAppender$1 (b, l)
+//@ func (d *downloaderPP) buildAppender$1 (b, l | l2GERManager)
 //@   props C16 C05
 //@   requires b != nil && l2GERManager != nil
 //@   modifies b.Events, parsedRemove
@@ -223,7 +223,7 @@ package lastgersync
 //@   ensures[one-removal-event-for-the-log] result == nil ==> len(b.Events) == 1 && typeIs(b.Events[0], *Event) && cast(b.Events[0], *Event) != nil && cast(b.Events[0], *Event).GEREvent != nil && cast(b.Events[0], *Event).GERInfo == nil
 //@   ensures[the-removal-names-the-logs-root-in-this-block] result == nil ==> cast(b.Events[0], *Event).GEREvent.IsRemove && cast(b.Events[0], *Event).GEREvent.BlockNum == b.Num && cast(b.Events[0], *Event).GEREvent.GlobalExitRoot == hashOf(parsedRemove.RemovedGlobalExitRoot)
 
-//@ func (d *downloaderPP) buildAppender$2 (b, l)
+//@ func (d *downloaderPP) buildAppender$2 (b, l | l2GERManager, d)
 //@   props C16 C05
 //@   requires b != nil && l2GERManager != nil && d != nil && d.l1InfoTreeSync != nil
 //@   modifies b.Events, parsedInsert, gerLookupsOK
